@@ -30,14 +30,25 @@ for i in ids:
     json.dump(meta, open(os.path.join(d, "meta.json"), "w"), indent=1)
     rows.append((i, meta["property"], caught, harness, subs, meta["confirmed"]))
     print(i, "CAUGHT" if caught else ("HARNESS-ERROR" if harness else "MISSED"), "%.0fs" % (time.time() - t0), flush=True)
+# regenerate the report from ALL recorded outcomes (not only the ids of this run)
+allrows = []
+for i in sorted(d for d in os.listdir(os.path.join(HERE, "seeded")) if os.path.isdir(os.path.join(HERE, "seeded", d))):
+    m = json.load(open(os.path.join(HERE, "seeded", i, "meta.json")))
+    cb, conf = m.get("caught_by") or {}, m.get("confirmed") or {}
+    if not cb:
+        continue
+    allrows.append((i, m["property"], cb.get("caught"), cb.get("harness_error"), [tuple(x) for x in cb.get("sub_checks_and_signatures", [])], conf, cb.get("tier")))
 with open(os.path.join(HERE, "seeded", "REPORT.md"), "w") as f:
-    f.write("# Seeded property-breaking changes vs. the checks (%s tier, /repo at %s)\n\n" % (tier, head))
-    f.write("Each change was written by an independent sub-agent that saw only the property text and a scratch worktree; each passes the\n"
-            "463-test baseline and has a demo that exits 1 with the change and 0 without (columns 'baseline' / 'demo').\n\n")
-    f.write("| id | property | baseline | demo with/without | verdict | caught by (sub-check: signature) |\n|---|---|---|---|---|---|\n")
-    for i, p, caught, harness, subs, conf in rows:
-        f.write("| %s | %s | %s | %s/%s | %s | %s |\n" % (
-            i, p, conf["baseline_with_change"], conf["demo_exit_with_change"], conf["demo_exit_without_change"],
+    f.write("# Seeded property-breaking changes vs. the checks\n\n")
+    f.write("Each change was written by an independent sub-agent that saw only the property text and a scratch worktree (ids `-mN`: first wave,\n"
+            "`-w2mN`: second wave, told which mechanisms had been used before); each passes the 463-test baseline and has a demo that exits 1 with\n"
+            "the change and 0 without (columns 'baseline' / 'demo').  Outcomes are recorded by tools/seeded_report.py in each meta.json.\n\n")
+    n_c = sum(1 for r in allrows if r[2])
+    f.write("%d changes recorded, %d caught by the %s tier of their property's check.\n\n" % (len(allrows), n_c, "quick"))
+    f.write("| id | property | /repo | baseline | demo with/without | verdict | caught by (sub-check: signature) |\n|---|---|---|---|---|---|---|\n")
+    for i, p, caught, harness, subs, conf, t in allrows:
+        f.write("| %s | %s | %s | %s | %s/%s | %s | %s |\n" % (
+            i, p, conf.get("repo_head"), conf.get("baseline_with_change"), conf.get("demo_exit_with_change"), conf.get("demo_exit_without_change"),
             "caught" if caught else ("harness error" if harness else "MISSED"),
             "; ".join("%s: %s" % s for s in subs[:6])))
 print("wrote seeded/REPORT.md")
